@@ -438,6 +438,24 @@ pub fn eval_unit_name(
     ctx: &Context,
     expr: &Expr,
 ) -> Result<(BTreeMap<String, isize>, Numeric), QueryError> {
+    let (unit, value) = eval_unit_name_inner(ctx, expr)?;
+    // The constant is split into a numerator and a denominator for
+    // display. `2 mod (-8)^2.5` is not a number that can be.
+    if let Numeric::Float(float) = value {
+        if !float.is_finite() {
+            return Err(QueryError::generic(format!(
+                "The constant in the right hand side of a conversion must be a number, got {}",
+                float
+            )));
+        }
+    }
+    Ok((unit, value))
+}
+
+fn eval_unit_name_inner(
+    ctx: &Context,
+    expr: &Expr,
+) -> Result<(BTreeMap<String, isize>, Numeric), QueryError> {
     match *expr {
         Expr::Call { .. } => Err(QueryError::generic(
             "Calls are not allowed in the right hand side of conversions".to_string(),
